@@ -3,9 +3,12 @@
    Model/Url.v: url_file_relative with the pathlib / posixpath pieces it uses, over the REGENERATED `_R_URL` regex
    (Gen/Regexes.v); the include statement of runtime.py as a pure function [run] over a virtual file system [vfs]
    and an abstract script (include statements, observable marks, return, function calls).
-   NOT in this model (checked on the implementation by the direct oracle of harness/c17.py): global scope / locals = None
-   of included statements, the text of the error messages, the parser on the fetched text. *)
+   The clause "global scope / locals = None of included statements" is stated on the interpreter model (end of this file).
+   NOT modelled (checked on the implementation by the direct oracle of harness/c17.py): the text of the error messages, the parser on the fetched text. *)
+From Coq Require Import ZArith List Bool.
 From BS Require Import Model.Base Model.Regex Model.Url Gen.Unicode Gen.Regexes Proofs.C17.
+From BS Require Model.Script Model.Interp Proofs.C17scope.
+Module I := BS.Model.Interp. Module S := BS.Model.Script.
 
 (* ---- the URL test, for ALL strings: the regenerated regex `^[a-z]+:` never runs out of fuel and is exactly
    "one or more lower-case ASCII letters, then a colon" ---- *)
@@ -116,7 +119,37 @@ Theorem C17_return_local : forall fs rec o pre_ post,
 Proof. exact return_is_local. Qed.
 Print Assumptions C17_return_local.
 
-(* full clause not provable in this model: "in global scope" (no variables in the abstract script) - oracle only. *)
+(* ---- "run in global scope", on the REAL interpreter model (Model/Interp.v exec; any library, options, fuel) ----
+   The abstract include model above has no variables, so this clause is stated about the interpreter model that the C01-C09
+   theorems are about (tied to runtime.py by their correspondence checks): an include statement executed with ANY locals (top
+   level, or inside a script function) hands its includes to run_incs - which takes no locals - and goes on with its own locals
+   unchanged; every included script that is fetched and parses runs as a new statement list from statement 0 with locals = None
+   (so its assignments write the globals: C04_assign_at_top_level_is_global) under the resolved url as the new base. *)
+Theorem C17_include_statement_scope : forall cfg lib url_rel lint_lines f code pc cache loc um w incs,
+  nth_error code pc = Some (S.SInclude incs) ->
+  ((0 <? I.c_max cfg)%Z && (I.c_max cfg <? I.w_count w + 1)%Z)%bool = false ->
+  I.exec cfg lib url_rel lint_lines (Datatypes.S f) code pc cache loc um w =
+  match I.run_incs cfg url_rel lint_lines (I.exec cfg lib url_rel lint_lines f) um incs (I.upd_count w (I.w_count w + 1)%Z) with
+  | (None, w1) => I.exec cfg lib url_rel lint_lines f code (Datatypes.S pc) cache loc um w1
+  | (Some o, w1) => (o, loc, w1)
+  end.
+Proof. exact C17scope.include_statement_scope. Qed.
+Print Assumptions C17_include_statement_scope.
+
+Theorem C17_included_script_runs_in_global_scope : forall cfg url_rel lint_lines ex um u sys t w0 fetch txt sc,
+  I.c_fetch cfg = Some fetch ->
+  let url := match sys, I.c_sysprefix cfg with
+             | true, Some p => url_rel p u
+             | _, _ => if I.has_urlfn cfg um then I.apply_urlfn cfg url_rel um u else u
+             end in
+  fetch url = Some txt -> S.parse_script [txt] 1 = S.ROk sc -> (I.c_debug cfg && I.c_haslog cfg)%bool = false ->
+  I.run_incs cfg url_rel lint_lines ex um ((u, sys) :: t) w0 =
+  match ex sc 0%nat [] None (I.UBase url) (I.add_fetched w0 url) with
+  | (I.OVal _, _, w3) => I.run_incs cfg url_rel lint_lines ex um t w3
+  | (o, _, w3) => (Some o, w3)
+  end.
+Proof. exact C17scope.included_script_runs_in_global_scope. Qed.
+Print Assumptions C17_included_script_runs_in_global_scope.
 
 (* non-vacuity *)
 Example C17_nonvacuous_tree :
